@@ -18,6 +18,8 @@ Definition ti (maximize : bool) (scores : list float) (clock : option nat) (n : 
 Definition ti_ok (maximize : bool) (scores : list float) (clock : option nat) (n : nat) (best builds : nat) (sources : list nat) : bool :=
   let r := ti maximize scores clock n in
   Nat.eqb (ti_best _ _ r) best && Nat.eqb (ti_builds _ _ r) builds && lnat_eqb (ti_sources _ _ r) sources.
+Definition ti_ok2 (maximize : bool) (scores : list float) (n : nat) (best builds : nat) : bool :=
+  let r := ti maximize scores None n in Nat.eqb (ti_best _ _ r) best && Nat.eqb (ti_builds _ _ r) builds.
 Definition fo_ok (leaf : list bool) (clock : option nat) (n : nat) (held : list nat) (check_split has_split : bool) : bool :=
   let r := forest nat (fun t => nth t leaf false) (fun i => i) (fun i => match clock with None => false | Some c => Nat.leb c i end) n in
   lnat_eqb (fst r) held && (negb check_split || Bool.eqb (snd r) has_split).
@@ -173,7 +175,80 @@ def run(ck, xr):
                         cases.append((cid, f'fo_ok {coq_list([coq_bool(b) for b in leaf])} {cl} {coq_nat(n_trees)} {coq_list([coq_nat(t) for t in o["held"]])} '
                                            f'{coq_bool(tune)} {coq_bool(o["tuned"] > 0)} && Nat.leb {coq_nat(o["tuned"])} 1'))
                         meta[cid] = dict(desc, observed=o)
+    # ---- (c) REAL fits with tree iterations (random_global_agop): every constructed tree and its score are recorded by a wrapper around score_tree; the score is
+    #      recomputed independently (float64, textbook definition) from that tree's own hard predictions; the tree the model holds must be the first best ----
+    real_iteration_fits(ck, xr, cases, meta)
     res = ck.run_bool_cases('treeiter', HEADER, cases, shard=400)
     bad = [meta[k] for k, v in res.items() if v is not True]
     ck.obligation(f'correspondence: {len(cases)} scripted runs of the real _build_tree_with_iterations / tree loop of fit == Model/TreeIter.v (kept tree, constructions, '
                   f'source of every rebuild, held trees, tuning gate)', 'correspondence', not bad, f'first mismatches: {bad[:4]}')
+
+
+def _same_tree(a, b):
+    if a['type'] != b['type']:
+        return False
+    if a['type'] == 'leaf':
+        return bool(torch.equal(torch.as_tensor(a['train_indices']), torch.as_tensor(b['train_indices'])))
+    return bool(torch.equal(a['split_direction'], b['split_direction'])) and bool(torch.equal(torch.as_tensor(a['split_point']), torch.as_tensor(b['split_point']))) \
+        and _same_tree(a['left'], b['left']) and _same_tree(a['right'], b['right'])
+
+
+def real_iteration_fits(ck, xr, cases, meta):
+    import numpy as np
+    rng = np.random.default_rng(ck.seed + 61616)
+    for k in range(ck.n(6, 16)):
+        task = ['reg', 'class', 'reg2'][k % 3]
+        metric = {'reg': ['mse', 'mae'][(k // 3) % 2], 'reg2': 'mse', 'class': ['accuracy', 'brier'][(k // 3) % 2]}[task]
+        maximize = metric == 'accuracy'
+        n, d, L = int(rng.integers(60, 110)), int(rng.integers(2, 5)), int(rng.integers(18, 30))
+        n_it = int(rng.integers(1, 4))
+        X = xr.make_X('random', n, d, rng); y = xr.make_y(task, X, rng)
+        Xv = xr.make_X('random', 40, d, rng); yv = xr.make_y(task, Xv, rng)
+        xr.seed_all(int(rng.integers(0, 2 ** 31)))
+        model = xr.xRFM(rfm_params=xr.default_rfm_params(iters=1, reg=1e-2), max_leaf_size=L, split_method='random_global_agop', n_trees=1, n_tree_iters=n_it,
+                        tuning_metric=metric, verbose=False, use_temperature_tuning=False, refill_size=5)
+        rec = []
+        orig = model.score_tree
+
+        def wrapped(Xv_, yv_, tree, _orig=orig, _rec=rec):
+            s_ = _orig(Xv_, yv_, tree)
+            with torch.no_grad():
+                pred = model._predict_tree(Xv_, tree, proba=(task == 'class'))
+            _rec.append(dict(tree=tree, score=float(s_), pred=pred.detach().double().cpu().numpy(), y=yv_.detach().double().cpu().numpy()))
+            return s_
+        model.score_tree = wrapped
+        desc = dict(kind='real-tree-iterations', n=n, d=d, L=L, n_tree_iters=n_it, task=task, metric=metric, seed=ck.seed, k=k)
+        try:
+            with xr.quiet():
+                model.fit(torch.tensor(X), torch.tensor(y), torch.tensor(Xv), torch.tensor(yv))
+        except Exception as e:
+            ck.violation(f'fit with tree iterations raised {e!r} on {desc}', dict(desc, error=repr(e)), key=json.dumps(dict(site='ti-real-raise', task=task)))
+            continue
+        ck.case(desc, nontrivial=True, sample=(k == 1))
+        ck.count(f'real tree-iteration fits: {metric}')
+        if len(rec) > 1 + n_it or len(rec) == 0:
+            ck.violation(f'{len(rec)} constructions scored for n_tree_iters={n_it} on {desc}', dict(desc, n_scored=len(rec)), key=json.dumps(dict(site='ti-real-builds')))
+            continue
+        held = model.trees[0]
+        idx = [i for i, r in enumerate(rec) if _same_tree(r['tree'], held)]
+        if not idx:
+            ck.violation(f'the tree held after the iterations equals none of the {len(rec)} constructed trees on {desc}', dict(desc), key=json.dumps(dict(site='ti-real-kept')))
+            continue
+        # independent scores (float64, textbook definitions on the recorded hard predictions of each tree)
+        ind = []
+        for r in rec:
+            P, Y = r['pred'], r['y']
+            if task == 'class':
+                lab = model.class_converter_.numerical_to_labels(torch.tensor(Y, dtype=torch.float32)).numpy()
+                ind.append(float((P.argmax(1) == lab).mean()) if metric == 'accuracy' else float(((P - np.eye(P.shape[1])[lab]) ** 2).mean()))
+            else:
+                ind.append(float(((P - Y) ** 2).mean()) if metric == 'mse' else float(np.abs(P - Y).mean()))
+        for i, (r, v) in enumerate(zip(rec, ind)):
+            if abs(r['score'] - v) > 1e-4 * (1 + abs(v)):
+                ck.violation(f'score_tree returned {r["score"]} for constructed tree {i}, the {metric} of its own validation predictions is {v}, on {desc}',
+                             dict(desc, tree=i, got=r['score'], want=v), key=json.dumps(dict(site='ti-real-score', metric=metric)))
+        sc = [r['score'] for r in rec]
+        # statement level: the held tree is one of the constructed trees (checked above); correspondence: it is the model's first best for these scores
+        cid = f'tr{k}'
+        cases.append((cid, f'ti_ok2 {coq_bool(maximize)} {coq_list([_fl(s_) for s_ in sc])} {coq_nat(len(rec) - 1)} {coq_nat(idx[0])} {coq_nat(len(rec))}'))
+        meta[cid] = dict(desc, scores=sc, kept=idx)
